@@ -3,7 +3,7 @@
 # change, then the property's check on the changed tree; no baseline) and lists the ones that are no longer
 # detected. Development aid, not a registered check.
 here="$(cd "$(dirname "$0")/.." && pwd)"
-export GOFLAGS=-mod=mod GOPROXY=off GOSUMDB=off GOTOOLCHAIN=local
+export GOFLAGS="-mod=mod -trimpath" GOPROXY=off GOSUMDB=off GOTOOLCHAIN=local
 (cd "$here/kgv" && go build -o "$here/bin/kgv" ./cmd/kgv) || exit 2
 ls -d "$here"/seeded/${1:-C}* | xargs -P ${P:-6} -I{} bash -c 'r=$(SKIP_BASELINE=1 "'$here'/tools/seeded.sh" {} 2>&1 | grep "exit=" | tr "\n" " "); echo "$(basename {}) $r"' | sort | tee /tmp/seeded_all.$$ | awk '{ if ($0 !~ /C[0-9][0-9] exit=1/) print "NOT DETECTED: " $0; else print "ok " $1 " " $0 }' | cut -c1-220
 bad=$(grep -vc 'C[0-9][0-9] exit=1' /tmp/seeded_all.$$); rm -f /tmp/seeded_all.$$
